@@ -542,19 +542,25 @@ func (w *world) genConfig(rng *rand.Rand, g *censorgen.G, batch []int, junk []st
 
 var allVariants = []int{0, 1, 2, 3, 4, 5}
 
+// chainCase generates configuration i: a batch of statements, some unparseable strings and a chain whose rules
+// are mostly made from that batch.
+func (w *world) chainCase(i, perConfig int) (*Config, []int, []string) {
+	rng := rand.New(rand.NewSource(w.seed*1_000_003 + int64(i)*7 + 11))
+	g := &censorgen.G{R: rng}
+	nJunk := perConfig * 3 / 20
+	batch := w.batch(rng, perConfig-nJunk)
+	junk := []string{}
+	for _, j := range rng.Perm(len(w.junk))[:nJunk] {
+		junk = append(junk, w.junk[j])
+	}
+	return w.genConfig(rng, g, batch, junk), batch, junk
+}
+
 // chainPhase: configurations x statements x formatting variants.
 func (w *world) chainPhase(r *ev.Run, nConfigs, perConfig, fullVariants int) {
 	parallel(r, nConfigs, func(i int) *outcome {
 		o := newOutcome()
-		rng := rand.New(rand.NewSource(w.seed*1_000_003 + int64(i)*7 + 11))
-		g := &censorgen.G{R: rng}
-		nJunk := perConfig * 3 / 20
-		batch := w.batch(rng, perConfig-nJunk)
-		junk := []string{}
-		for _, j := range rng.Perm(len(w.junk))[:nJunk] {
-			junk = append(junk, w.junk[j])
-		}
-		cfg := w.genConfig(rng, g, batch, junk)
+		cfg, batch, junk := w.chainCase(i, perConfig)
 		tag := fmt.Sprintf("chain-%d", i)
 		c, err := load(cfg)
 		if err != nil {
@@ -652,37 +658,19 @@ func (w *world) patternPhase(r *ev.Run, masksPer int) {
 	})
 }
 
-// Run is the C05 monitor.
-func Run(r *ev.Run) {
-	r.Rule = "censor layer: one evaluation = one AcraCensor.HandleQuery call on (generated YAML configuration, formatting variant of a generated statement or an unparseable string); " +
-		"configurations are chains of 1-5 handlers over allow/deny/allowall/denyall/query_ignore/query_capture with 0-3 query/table/pattern rules each and both ignore_parse_error values; " +
-		"rules are built FROM the statements (query rule = a formatting variant of a pool statement; table rule = a table name; pattern = the statement with a chosen subset of literals/IN-lists/columns/WHERE/sub-selects replaced by placeholders, or its %%KIND%% placeholder) so whether a rule matches is known by construction; " +
-		"a case is non-trivial when the documented chain semantics decide it (no 'not decided' predicate on the way) and all 6 formatting variants were run; " +
-		"distinct_nontrivial counts distinct (handler-kind chain shape, rule kind that decided, statement kind, verdict) tuples"
-	r.Assumptions = []string{
-		"the crypto library is not involved in this layer",
-		"statements come from a generator restricted to the grammar subset Acra's MySQL-dialect parser accepts (checked at start; a generated statement Acra's parser refuses is dropped and counted, never judged)",
-		"table rules are judged only for tables named directly in FROM (joins, parenthesised lists) of a SELECT or as INSERT target; occurrences only inside sub-selects, UPDATE/DELETE targets, UNION branches and statements without a plain table in FROM are observed and reported as not decided",
-		"%%COLUMN%% is derived with its qualifier kept (t1.id -> t1.%%COLUMN%%); comments inside a statement are not formatting variants (only margin comments are)",
-		"the proxy layer (forwarding, pending-query queue) is a separate part of this monitor (ProxyLayer)",
-	}
-	if os.Getenv("VERIF_LOGS") == "" {
-		// the firewall logs every verdict; logrus formats under one global mutex, which would serialise the workers
-		logrus.SetLevel(logrus.PanicLevel)
-	}
-	defer debug.SetGCPercent(debug.SetGCPercent(400)) // the yacc parser allocates its whole stack per call
-	w := &world{seed: r.Seed, byKind: map[string][]int{}}
-	g := &censorgen.G{R: rand.New(rand.NewSource(r.Seed*31 + 7))}
+// newWorld generates the statement pool and the unparseable strings of a seed. Generator hygiene (not a verdict):
+// only statements Acra's parser knows and junk it refuses are kept; what was dropped is returned for the evidence.
+func newWorld(seed int64, poolSize int) (w *world, refused []string, junkAccepted int) {
+	w = &world{seed: seed, byKind: map[string][]int{}}
+	g := &censorgen.G{R: rand.New(rand.NewSource(seed*31 + 7))}
 	parser := sqlparser.New(sqlparser.ModeStrict)
-	// generator hygiene (not a verdict): keep only statements Acra's parser knows, and junk it does not
 	remap := map[int]int{}
-	for _, s := range g.Pool(r.Pick(360, 900)) {
+	for _, s := range g.Pool(poolSize) {
 		_, err := parser.Parse(s.Canon)
 		_, baseKept := remap[s.BaseID]
 		_, cousinKept := remap[s.CousinOf]
 		if err != nil || (s.BaseID >= 0 && !baseKept) || (s.CousinOf >= 0 && !cousinKept) {
-			r.Count("generated_statement_refused_by_parser", 1)
-			r.Inconclusive("generated statement refused by Acra's parser (dropped, not judged): " + s.Canon)
+			refused = append(refused, s.Canon)
 			continue
 		}
 		remap[s.ID] = len(w.pool)
@@ -698,11 +686,69 @@ func Run(r *ev.Run) {
 	}
 	for _, j := range g.Unparseable(w.pool, 40) {
 		if _, err := parser.Parse(j); err == nil {
-			r.Count("junk_accepted_by_parser", 1)
+			junkAccepted++
 			continue
 		}
 		w.junk = append(w.junk, j)
 	}
+	return w, refused, junkAccepted
+}
+
+// Workload exposes the generated material of one seed (statements with their formatting variants, unparseable
+// strings, configurations and the oracle) to the proxy layer of this monitor.
+type Workload struct{ w *world }
+
+// NewWorkload builds the statement pool of a seed.
+func NewWorkload(seed int64, poolSize int) *Workload {
+	w, _, _ := newWorld(seed, poolSize)
+	return &Workload{w}
+}
+
+// Case returns configuration number i of the seed together with the n inputs generated for it.
+func (x *Workload) Case(i, n int) (*Config, []Input) {
+	cfg, batch, junk := x.w.chainCase(i, n)
+	ins := []Input{}
+	for _, id := range batch {
+		ins = append(ins, x.w.input(id))
+	}
+	for _, j := range junk {
+		ins = append(ins, Input{Raw: j})
+	}
+	return cfg, ins
+}
+
+// Expect is the censor-layer oracle for one input under one configuration.
+func (x *Workload) Expect(c *Config, in Input) Decision { return Expect(c, in, x.w.pool) }
+
+// Text renders formatting variant v (0..censorgen.NVariants-1) of the input; unparseable strings have one spelling.
+func (in Input) Text(v int) string { return inputText(in, v) }
+
+// Run is the C05 monitor.
+func Run(r *ev.Run) {
+	r.Rule = "censor layer: one evaluation = one AcraCensor.HandleQuery call on (generated YAML configuration, formatting variant of a generated statement or an unparseable string); " +
+		"configurations are chains of 1-5 handlers over allow/deny/allowall/denyall/query_ignore/query_capture with 0-3 query/table/pattern rules each and both ignore_parse_error values; " +
+		"rules are built FROM the statements (query rule = a formatting variant of a pool statement; table rule = a table name; pattern = the statement with a chosen subset of literals/IN-lists/columns/WHERE/sub-selects replaced by placeholders, or its %%KIND%% placeholder) so whether a rule matches is known by construction; " +
+		"a case is non-trivial when the documented chain semantics decide it (no 'not decided' predicate on the way) and the real verdict of every formatting variant run agrees with it " +
+		"(quick: all 6 variants of every statement; thorough: all 6 for 12 statements of each configuration, the reference spelling and one other variant for the remaining 22); " +
+		"distinct_nontrivial counts distinct (handler-kind chain shape, rule kind that decided, statement kind, verdict) tuples"
+	r.Assumptions = []string{
+		"the crypto library is not involved in this layer",
+		"statements come from a generator restricted to the grammar subset Acra's MySQL-dialect parser accepts (checked at start; a generated statement Acra's parser refuses is dropped and counted, never judged)",
+		"table rules are judged only for tables named directly in FROM (joins, parenthesised lists) of a SELECT or as INSERT target; occurrences only inside sub-selects, UPDATE/DELETE targets, UNION branches and statements without a plain table in FROM are observed and reported as not decided",
+		"%%COLUMN%% is derived with its qualifier kept (t1.id -> t1.%%COLUMN%%); comments inside a statement are not formatting variants (only margin comments are)",
+		"the proxy layer (forwarding, pending-query queue) is a separate part of this monitor (ProxyLayer)",
+	}
+	if os.Getenv("VERIF_LOGS") == "" {
+		// the firewall logs every verdict; logrus formats under one global mutex, which would serialise the workers
+		logrus.SetLevel(logrus.PanicLevel)
+	}
+	defer debug.SetGCPercent(debug.SetGCPercent(400)) // the yacc parser allocates its whole stack per call
+	w, refused, junkAccepted := newWorld(r.Seed, r.Pick(360, 900))
+	for _, c := range refused {
+		r.Count("generated_statement_refused_by_parser", 1)
+		r.Inconclusive("generated statement refused by Acra's parser (dropped, not judged): " + c)
+	}
+	r.Count("junk_accepted_by_parser", int64(junkAccepted))
 	for _, s := range w.pool {
 		w.byKind[s.Kind] = append(w.byKind[s.Kind], s.ID)
 		r.SetAdd("statement_shapes", s.Shape)
@@ -730,7 +776,7 @@ func Run(r *ev.Run) {
 	r.RequireAtLeast("patterns_derived", 1000)
 	r.RequireAtLeast("pattern_relation:self", 500)
 	r.RequireAtLeast("pattern_relation:otherkind", 200)
-	r.RequireSetAtLeast("deciders", 10)
+	r.RequireSetAtLeast("deciders", 9)
 	r.RequireSetAtLeast("statement_shapes", 9)
 	if ProxyLayer != nil {
 		ProxyLayer(r)
